@@ -16,9 +16,11 @@
 EXTENDS Octets, TLC
 
 Accept == 0
-Lenient == 1
-Free == 2
-Reject == 3
+NonMin == 1       \* BER-valid but not minimal (a long-form length with redundant leading octets): a receiver must take it
+                  \* (X.690 8.1.3.5 note 2), a sender bound to the minimal form (C03 / C15) must not produce it
+Lenient == 2
+Free == 3
+Reject == 4
 MaxC(a, b) == IF a >= b THEN a ELSE b
 
 CUniversal == 0
@@ -52,7 +54,7 @@ TLVAt(b, p, e) ==
             IF l1 < 128
               THEN (IF p + 1 + l1 > e THEN Fail("overrun")
                     ELSE [ok |-> TRUE, cls |-> cls, cons |-> cons, tag |-> tn,
-                          cs |-> p + 2, cl |-> l1, nx |-> p + 2 + l1, min |-> TRUE])
+                          cs |-> p + 2, cl |-> l1, nx |-> p + 2 + l1, min |-> TRUE, k |-> 0])
             ELSE IF l1 = 128 THEN Fail("indefinite")
             ELSE LET k == l1 - 128 IN
                  IF p + 1 + k > e THEN Fail("lenshort")
@@ -62,11 +64,12 @@ TLVAt(b, p, e) ==
                            IF p + 1 + k + n > e THEN Fail("overrun")
                            ELSE [ok |-> TRUE, cls |-> cls, cons |-> cons, tag |-> tn,
                                  cs |-> p + 2 + k, cl |-> n, nx |-> p + 2 + k + n,
-                                 min |-> (Len(lo) = k /\ n >= 128)]
+                                 min |-> (Len(lo) = k /\ n >= 128), k |-> k]
 
 Content(b, h) == SubSeq(b, h.cs, h.cs + h.cl - 1)
 IsTag(h, cls, cons, tag) == h.ok /\ h.cls = cls /\ h.cons = cons /\ h.tag = tag
-LenClass(h) == IF h.min THEN Accept ELSE Lenient
+(* up to four length octets is what every BER decoder takes; beyond that a decoder may cap the length of the length *)
+LenClass(h) == IF h.min THEN Accept ELSE IF h.k <= 4 THEN NonMin ELSE Lenient
 
 (* minimal definite length octets *)
 EncLen(n) == IF n < 128 THEN <<n>>
